@@ -511,6 +511,12 @@ def gen_join_frames(rng, ts, stats, missing=None, big=False, str_dtype=None, non
         if side:
             side[rng.randrange(len(side))] = rng.choice([5, 2.5, True, 0])
             stats.hit('frames.nonstring_value')
+    if nr >= 2 and rng.random() < 0.15:
+        # the same join string in two right records (their other attributes differ): whatever is remembered per STRING
+        # must not leak from one record to the other
+        i, j = rng.sample(range(nr), 2)
+        rv[j] = rv[i]
+        stats.hit('frames.duplicate_right_string')
     if rng.random() < 0.03:
         lv = [None] * nl
     if rng.random() < 0.03:
@@ -521,7 +527,7 @@ def gen_join_frames(rng, ts, stats, missing=None, big=False, str_dtype=None, non
     lkey, rkey = rng.choice([('id', 'id'), ('lid', 'rid')])
     L = make_frame(rng, lv, attr=lname, key=lkey, str_dtype=str_dtype)
     c = rng.random()
-    if c < 0.07 and nl > 0:
+    if c < 0.10 and nl > 0:
         # a self-join: the SAME DataFrame object as left and right table — on one column (de-duplication) or matching one
         # column against another (name against alias)
         if c < 0.03:
